@@ -9,6 +9,7 @@ CONSTANTS
   Kinds = {"iso","npoint","array","rodgers","guillot"}
   Rule = "spec"
   RodVariant = "spec"
+  SignedNodes = "no"
   Export = FALSE
 INVARIANT InvalidNeverNaN
 INVARIANT OnePerLayer
@@ -18,6 +19,8 @@ INVARIANT WithinControlRange
 INVARIANT ConstantWhenControlsEqual
 INVARIANT NPointRejectedIff
 INVARIANT StrictImpliesInvalid
+INVARIANT NonPositiveNodeIsInverted
+INVARIANT SignedAgreesOnPositive
 INVARIANT GuillotListedRejected
 INVARIANT GuillotPhysicalAccepted
 INVARIANT FitsInv
